@@ -11,3 +11,4 @@ INVARIANT Sound
 INVARIANT SliceInRange
 INVARIANT LemmaRevCompInvariant
 INVARIANT LemmaCaseInvariant
+INVARIANT LemmaPieces
